@@ -54,6 +54,9 @@ func (o *obj) BatchWrite(b kvstore.BatchedMutations) {
 	if err := b.Set(key(o.id), buf); err != nil {
 		panic(err)
 	}
+	if o.gate != nil {
+		o.gate.Wait("cb:batchwrite-end") // the value was read: whoever enqueues the object from now on must get it written again
+	}
 }
 func (o *obj) BatchWriteDone() {
 	if o.gate != nil {
@@ -213,6 +216,8 @@ func drive(args []string) int {
 				}
 				hangs += forcedStopWindow(enc, gate, q, b)
 				n++
+				hangs += forcedRequeueDuringWrite(enc, gate, q, b)
+				n++
 			}
 		}
 		hangs += gomaxprocs1(enc)
@@ -241,6 +246,30 @@ func forcedStartRace(enc *json.Encoder, gate *sched.Gate, q, b int) int {
 	r.goThread(2, func() { r.stop(2) })
 	sched.Quiesce(2 * time.Second)
 	gate.ReleaseAll()
+	return r.finish(enc, 3*time.Second)
+}
+
+// forcedRequeueDuringWrite: the writer is held at the end of BatchWrite(o) (o's value was read and put into the batch); o
+// changes and is enqueued again; the writer goes on; Stop. The second state must be written too.
+func forcedRequeueDuringWrite(enc *json.Encoder, gate *sched.Gate, q, b int) int {
+	r := newRun(q, b, 5*time.Millisecond, 2)
+	for _, o := range r.objs {
+		o.gate = gate
+	}
+	gate.Hold("cb:batchwrite-end")
+	r.goThread(1, func() { r.enqueue(1, 1) })
+	for i := 0; i < 400 && gate.Parked("cb:batchwrite-end") == 0; i++ {
+		time.Sleep(time.Millisecond)
+	}
+	gate.Free("cb:batchwrite-end")
+	r.goThread(2, func() { r.enqueue(2, 1) })
+	select {
+	case <-r.threads[2]:
+	case <-time.After(300 * time.Millisecond): // (queue size 0: the Enqueue waits for the writer, which is parked)
+	}
+	gate.ReleaseAll()
+	time.Sleep(20 * time.Millisecond)
+	r.goThread(3, func() { r.stop(3) })
 	return r.finish(enc, 3*time.Second)
 }
 
